@@ -315,10 +315,11 @@ impl Engine for C03 {
                     Err(pm) => out.push(Violation::new("T2", "panic", format!("read:{}", panic_path(&pm)), pm)),
                     Ok(Err(_)) => st.probe("over_indented_line.refused"),
                     Ok(Ok(got)) => {
-                        if let Ok(want) = read_tiny(&rest, n) {
-                            if let Some(m) = want.missing_in(&got) {
-                                out.push(Violation::new("T2", "reader-ok-with-lost-entries", "read.over-indented-line", format!("line {} is one tab too deep; read returned Ok without what the OTHER lines say: {m}", at + 1)));
-                            }
+                        // C03: "reading never merges, loses or re-parents an entry" - a reader that tolerates the extra tab
+                        // has to keep the entry on that line too; what it cannot keep it has to refuse
+                        let _ = &rest;
+                        if let Some(m) = p.m.missing_in(&got) {
+                            out.push(Violation::new("T2", "reader-ok-with-lost-entries", "read.over-indented-line", format!("line {} is one tab too deep; read returned Ok and lost: {m}", at + 1)));
                         }
                     }
                 }
